@@ -1,7 +1,7 @@
 (* C08 — proofs, part 4: Smith's trigonometric formula for the eigenvalues of a real symmetric 3x3 matrix
    (eigenValues3dImpl, non-diagonal branch) in exact real arithmetic: acos / cos are the real functions. *)
 From Coq Require Import Reals Lra Lia.
-From DuneV Require Import C08_Spec.
+From DuneV Require Import Params_gen C08_Spec.
 Local Open Scope R_scope.
 
 Lemma cos_3a : forall x, cos (3 * x) = 4 * (cos x * cos x * cos x) - 3 * cos x.
@@ -235,13 +235,30 @@ Definition c08_sort3 (x y z : R) : R * R * R :=
   let '(x, y) := if Rlt_dec y x then (y, x) else (x, y) in (x, y, z).
 (* eigenValues3dImpl with the threshold of `p1 <= epsilon` as a parameter *)
 Definition c08_eig3 (eps a00 a01 a02 a11 a12 a22 : R) : R * R * R :=
-  if Rle_dec (a01 * a01 + a02 * a02 + a12 * a12) eps then c08_sort3 a00 a11 a22 else c08_smith3 a00 a01 a02 a11 a12 a22.
+  if Rle_dec (a01 * a01 + a02 * a02 + a12 * a12) eps then c08_sort3 a00 a11 a22
+  else let '(e0, e1, e2) := c08_smith3 a00 a01 a02 a11 a12 a22 in
+       if c08_param_eig3_sorted then c08_sort3 e0 e1 e2 else (e0, e1, e2).   (* std::sort added by fix 3c4d542: re-read from the source *)
 
 Lemma sort3_ok : forall x y z, let '(u, v, w) := c08_sort3 x y z in
   u <= v /\ v <= w /\ forall t, (t - x) * (t - y) * (t - z) = (t - u) * (t - v) * (t - w).
 Proof.
   intros x y z. unfold c08_sort3.
   destruct (Rlt_dec y x); destruct (Rlt_dec z _); destruct (Rlt_dec _ _); repeat split; try lra; intros; ring.
+Qed.
+
+Lemma sort3_id : forall x y z, x <= y -> y <= z -> c08_sort3 x y z = (x, y, z).
+Proof.
+  intros x y z H1 H2. unfold c08_sort3. destruct (Rlt_dec y x); [lra|]. destruct (Rlt_dec z y); [lra|]. destruct (Rlt_dec y x); [lra | reflexivity].
+Qed.
+
+(* the sort is the identity on Smith's values (exact arithmetic) *)
+Lemma eig3_smith : forall eps a00 a01 a02 a11 a12 a22, 0 <= eps -> eps < a01 * a01 + a02 * a02 + a12 * a12 ->
+  c08_eig3 eps a00 a01 a02 a11 a12 a22 = c08_smith3 a00 a01 a02 a11 a12 a22.
+Proof.
+  intros eps a00 a01 a02 a11 a12 a22 He Hp. unfold c08_eig3, c08_param_eig3_sorted. destruct (Rle_dec _ eps); [lra|].
+  assert (0 < a01 * a01 + a02 * a02 + a12 * a12) as Hp1 by lra.
+  pose proof (P_smith3 a00 a01 a02 a11 a12 a22 Hp1) as H. unfold smith in H.
+  destruct (c08_smith3 a00 a01 a02 a11 a12 a22) as [[e0 e1] e2]. destruct H as (H1 & H2 & _). apply sort3_id; assumption.
 Qed.
 
 (* C08_3x3_exact, eigenvalue part, FULL: threshold 0, every real symmetric 3x3 matrix, both branches *)
@@ -264,6 +281,8 @@ Proof.
     (* the sum is the coefficient of x^2: compare the two cubics at three points *)
     pose proof (H3 0) as P0. pose proof (H3 1) as P1. pose proof (H3 (-1)) as P2. lra.
   - assert (0 < a01 * a01 + a02 * a02 + a12 * a12) as Hp1 by lra.
+    pose proof (eig3_smith 0 a00 a01 a02 a11 a12 a22 (Rle_refl 0) Hp1) as Es. unfold c08_eig3 in Es.
+    destruct (Rle_dec (a01 * a01 + a02 * a02 + a12 * a12) 0) as [C|_] in Es; [lra|]. rewrite Es. clear Es.
     pose proof (P_smith3 a00 a01 a02 a11 a12 a22 Hp1) as H. pose proof (P_smith3_factor a00 a01 a02 a11 a12 a22 Hp1) as F.
     unfold smith in *. destruct (c08_smith3 a00 a01 a02 a11 a12 a22) as [[e0 e1] e2].
     destruct H as (H1 & H2 & H3 & _). repeat split; assumption.
